@@ -564,3 +564,145 @@ def sided_cells(p: Poly, td_name: Optional[str] = None):
         for a, _ in fs:
             tgt |= cells_of(a, td_name)
     return pos, neg
+
+
+# ----------------------------------------------------------------------------- three-valued evaluation
+
+
+def _connective(s: S):
+    """-> ('and'|'or', kids) for boolean connective nodes, else None."""
+    o, a = s.op, s.args
+    fn = _fn(s)
+    if o in ("&", "and") or (o == "*" and (_is_boolish(a[0]) or _is_boolish(a[1]))):
+        return "and", list(a)
+    if fn == "torch.logical_and":
+        return "and", list(a[1:3])
+    if o in ("|", "or") or (o == "+" and _is_boolish(a[0]) and _is_boolish(a[1])):
+        return "or", list(a)
+    if fn == "torch.logical_or":
+        return "or", list(a[1:3])
+    if o == "meth" and len(a) == 3:
+        if a[1] in ("logical_and", "logical_and_", "mul", "mul_", "bitwise_and"):
+            return "and", [a[0], a[2]]
+        if a[1] in ("logical_or", "logical_or_", "add", "add_", "bitwise_or"):
+            return "or", [a[0], a[2]]
+    return None
+
+
+def kleene(s: S, assume, sign=+1, depth=0):
+    """Three-valued truth of a boolean tensor expression: True = every entry true, False =
+    every entry false, None = unknown.  `assume(node)` may fix the value of designated nodes."""
+    if depth > 120:
+        return None
+    s = strip(s, bool_ctx=True)
+
+    def ret(v):
+        return v if (v is None or sign > 0) else (not v)
+
+    v = assume(s)
+    if v is not None:
+        return ret(v)
+    o, a = s.op, s.args
+    d = depth + 1
+    if o == "const" and isinstance(a[0], (bool, int, float)):
+        return ret(bool(a[0]))
+    if o in ("inv", "not"):
+        return kleene(a[0], assume, -sign, d)
+    fn = _fn(s)
+    if fn == "torch.logical_not":
+        return kleene(a[1], assume, -sign, d)
+    if fn in ("torch.zeros", "torch.zeros_like"):
+        return ret(False)
+    if fn in ("torch.ones", "torch.ones_like"):
+        return ret(True)
+    if fn in ("torch.full", "torch.full_like") and len(a) >= 3:
+        fv = [x for x in a[2:] if is_const(x) and isinstance(x.args[0], (bool, int, float))]
+        if fv:
+            return ret(bool(fv[-1].args[0]))
+    c = _connective(s)
+    if c is not None:
+        kind, kids = c
+        vals = [kleene(k, assume, +1, d) for k in kids]
+        if kind == "and":
+            r = False if any(x is False for x in vals) else (True if all(x is True for x in vals) else None)
+        else:
+            r = True if any(x is True for x in vals) else (False if all(x is False for x in vals) else None)
+        return ret(r)
+    if fn in ("torch.cat", "torch.concat", "torch.stack") and len(a) >= 2:
+        items = _seq_items(a[1])
+        if items:
+            vals = [kleene(k, assume, +1, d) for k in items]
+            if all(x is True for x in vals):
+                return ret(True)
+            if all(x is False for x in vals):
+                return ret(False)
+        return None
+    if o == "sub":
+        return kleene(a[0], assume, sign, d)
+    if o == "store":
+        x, y = kleene(a[0], assume, +1, d), kleene(a[2], assume, +1, d)
+        return ret(x) if (x is not None and x == y) else None
+    if o in ("phi", "ifexp"):
+        x, y = kleene(a[1], assume, +1, d), kleene(a[2], assume, +1, d)
+        return ret(x) if (x is not None and x == y) else None
+    if fn == "torch.where" and len(a) == 4:
+        x, y = kleene(a[2], assume, +1, d), kleene(a[3], assume, +1, d)
+        return ret(x) if (x is not None and x == y) else None
+    r = _cmp_raw(s)
+    if r is not None:
+        lhs, op, rhs = r
+        if op in ("==", "!=") and (is_const(rhs, 0) or is_const(rhs, False) or is_const(rhs, 1) or is_const(rhs, True)) and _is_boolish(strip(lhs, True)):
+            flip = (op == "==") != bool(rhs.args[0])
+            x = kleene(lhs, assume, +1, d)
+            return ret(None if x is None else (not x if flip else x))
+        if op in (">", "!=") and is_const(rhs, 0) and _is_boolish(strip(lhs, True)):
+            return kleene(lhs, assume, sign, d)
+    return None
+
+
+def row_nonempty(s: S, assume, sign=+1, residual=None, depth=0):
+    """True when it is structurally certain that every row of the mask `s` (negated when
+    sign<0) has at least one true entry, under `assume`.  `residual(node)` marks filter
+    literals that are assumed true by a recorded instance-validity argument."""
+    if depth > 120:
+        return False
+    s = strip(s, bool_ctx=True)
+    o, a = s.op, s.args
+    d = depth + 1
+    if o in ("inv", "not"):
+        return row_nonempty(a[0], assume, -sign, residual, d)
+    fn = _fn(s)
+    if fn in ("torch.cat", "torch.concat") and len(a) >= 2:
+        items = _seq_items(a[1])
+        if items:
+            return any(row_nonempty(k, assume, sign, residual, d) for k in items)
+    if o == "store":
+        if row_nonempty(a[2], assume, sign, residual, d) or kleene(a[2], assume, sign) is True:
+            return True
+        return False
+    if o == "meth" and a[1] in ("scatter", "scatter_") and len(a) >= 5:
+        v = a[-1]
+        if isinstance(v, S) and v.op == "kw":
+            v = v.args[1]
+        if isinstance(v, S) and kleene(v, assume, sign) is True:
+            return True
+        return False
+    r = _cmp_raw(s)
+    if r is not None:
+        lhs, op, rhs = r
+        if op in (">", "!=") and is_const(rhs, 0) and _is_boolish(strip(lhs, True)):
+            return row_nonempty(lhs, assume, sign, residual, d)
+    c = _connective(s)
+    if c is not None:
+        kind, kids = c
+        eff = kind if sign > 0 else ("or" if kind == "and" else "and")
+        if eff == "or":
+            return any(row_nonempty(k, assume, sign, residual, d) for k in kids)
+        # effective AND: one structural conjunct provides the open column, all others must be true there
+        for i, k in enumerate(kids):
+            if row_nonempty(k, assume, sign, residual, d):
+                rest = [x for j, x in enumerate(kids) if j != i]
+                if all((kleene(x, assume, sign) is True) or (residual is not None and residual(x, sign)) for x in rest):
+                    return True
+        return False
+    return kleene(s, assume, sign) is True
